@@ -765,7 +765,7 @@ class Interp(object):
             return
         it = bi.get_iter(self, src, node)
         spec = self.find_spec(node)
-        if spec is None and bi.is_concrete_iter(it):
+        if bi.is_concrete_iter(it) and (spec is None or bi.base_iter(it) is None):
             completed = True
             while True:
                 try:
